@@ -484,9 +484,10 @@ func (p *Parser) ParseErrorStatement() (*ast.ErrorStatement, error) {
 	// If code exists, attach comment to it as Trailing
 	case stmt.Code != nil:
 		SwapLeadingTrailing(p.curToken, stmt.Code.GetMeta())
-	// Otherwise, attach comment to the statement as Trailing
+	// Otherwise ("error <comment>;"), attach comment to the statement as Infix like "esi <comment>;":
+	// the statement's Trailing is assigned just below
 	default:
-		SwapLeadingTrailing(p.curToken, stmt.Meta)
+		SwapLeadingInfix(p.curToken, stmt.Meta)
 	}
 	stmt.Trailing = p.Trailing()
 
